@@ -1,1 +1,18 @@
-fn main(){}
+fn main() {
+    vh::interpose::init();
+    let args: Vec<String> = std::env::args().collect();
+    if args.get(1).map(|s| s.as_str()) == Some("selftest") {
+        match vh::simk::selftest_pipe_model(1, 200) {
+            Ok(n) => {
+                println!("pipe model agrees with the kernel on {} steps", n);
+                std::process::exit(0)
+            }
+            Err(e) => {
+                eprintln!("pipe model self-test failed: {}", e);
+                std::process::exit(2)
+            }
+        }
+    }
+    let defs = vh::props::all();
+    std::process::exit(vh::cli::dispatch(&defs, &args));
+}
